@@ -295,6 +295,51 @@ func TestVerifBoundedSticky(t *testing.T) {
 							}
 						}
 					}
+					// round 3b: every topic loses its last partition; the previous plan (now naming partitions that no
+					// longer exist) is fed back as user data
+					{
+						sh5 := vbShape{subs: subs, topics: map[string][]int32{}}
+						shrunk := false
+						for tn, parts := range sh.topics {
+							if len(parts) > 0 {
+								sh5.topics[tn] = parts[:len(parts)-1]
+								shrunk = true
+							} else {
+								sh5.topics[tn] = parts
+							}
+						}
+						if shrunk {
+							plan5, err := BalanceStrategySticky.Plan(vbMembers(sh5, plan2, 2, t), sh5.topics)
+							if err != nil {
+								fail("C08", "plan (partitions removed)", sh5, err)
+								return
+							}
+							if err := vbValid(sh5, plan5); err != nil {
+								fail("C08", "valid (partitions removed, stale user data)", sh5, err)
+							}
+							if err := vbBalanced(sh5, plan5); err != nil {
+								fail("C13", "balanced (partitions removed)", sh5, err)
+							}
+						}
+					}
+					// round 3c: the first member drops its first topic (when it has two); the previous plan is fed back
+					if len(subs[0]) > 1 {
+						subs6 := append([][]string{subs[0][1:]}, subs[1:]...)
+						sh6 := vbShape{subs: subs6, topics: map[string][]int32{}}
+						for _, ts := range subs6 {
+							for _, tn := range ts {
+								sh6.topics[tn] = topics[tn]
+							}
+						}
+						plan6, err := BalanceStrategySticky.Plan(vbMembers(sh6, plan2, 2, t), sh6.topics)
+						if err != nil {
+							fail("C08", "plan (subscription dropped)", sh6, err)
+							return
+						}
+						if err := vbValid(sh6, plan6); err != nil {
+							fail("C08", "valid (subscription dropped, stale user data)", sh6, err)
+						}
+					}
 					// round 4: conflicting user data (every member claims the whole first plan, same generation)
 					members := vbMembers(sh, nil, 0, t)
 					all := map[string][]int32{}
